@@ -52,6 +52,9 @@ ENTRY = dict(
                    "maps legitimately dropped below the 1e-14 cut-off cost at most (#maps) * 1e-14 * kappa <= 2.6e-11 * kappa "
                    "(c01_subcutoff_partial); a defect that drops or mis-weights joint maps of probability up to 1e-8 costs 1e-10..1e-7 and "
                    "is seen (stream weak_cuts: 2-3 cuts with |theta| in [1e-4, 1e-3]). The earlier flat 1e-7 hid such errors. "
+                   "Stream gate_before_third_cut (4 requests per quick run): one unseparated circuit with THREE cx-family gates marked "
+                   "through cut_gates, a generic one-qubit gate (u / h) directly in front of each cut gate on its second operand, or the "
+                   "previous cut gate ending on that qubit; the two halves of a cut must stay where the cut gate stood (216 samples, one group). "
                    "No axioms. THE WHOLE CHAIN generate (C05 model) ; exact sampler `run` ; reconstruct (C06 model) is covered by "
                    "c01_generated_roundtrip_partial / _dict_partial / _single_partial: there the 'exact results' equation, the projection "
                    "lists (label suffixes of the one-qubit placeholders in circuit order, resp. identity), the result counts and the "
